@@ -376,8 +376,9 @@ Lemma In_VALS v : In v VALS <-> is_val v = true.
 Proof.
   unfold is_val, VALS. split.
   - intros H. cbn in H. repeat (destruct H as [<-|H]; [reflexivity|]). contradiction.
-  - intros H. assert (Hv : v < 8) by lia. cbn.
-    assert (v = 0 \/ v = 1 \/ v = 2 \/ v = 3 \/ v = 4 \/ v = 5 \/ v = 6 \/ v = 7) by lia.
+  - intros H. assert (Hv : v < 12) by lia. cbn.
+    assert (v = 0 \/ v = 1 \/ v = 2 \/ v = 3 \/ v = 4 \/ v = 5 \/ v = 6 \/ v = 7 \/
+            v = 8 \/ v = 9 \/ v = 10 \/ v = 11) by lia.
     intuition.
 Qed.
 
